@@ -1103,6 +1103,10 @@ func (*MemFS) ToSysStat(info fs.FileInfo) avfs.SysStater {
 func (vfs *MemFS) Truncate(name string, size int64) error {
 	op := "truncate"
 
+	if size < 0 {
+		return &fs.PathError{Op: op, Path: name, Err: vfs.err.InvalidArgument}
+	}
+
 	_, child, _, err := vfs.searchNode(name, slmEval)
 	if err != vfs.err.FileExists {
 		if vfs.OSType() == avfs.OsWindows {
@@ -1119,10 +1123,6 @@ func (vfs *MemFS) Truncate(name string, size int64) error {
 		}
 
 		return &fs.PathError{Op: op, Path: name, Err: vfs.err.IsADirectory}
-	}
-
-	if size < 0 {
-		return &fs.PathError{Op: op, Path: name, Err: vfs.err.InvalidArgument}
 	}
 
 	c.mu.Lock()
